@@ -303,6 +303,8 @@ def shards(tier, seed):
     for hname in ("det3", "state3", "seq", "custom3"):
         out.append({"part": "free", "h": hname, "seed": seed, "tier": tier})
     out.append({"part": "calib", "seed": seed, "tier": tier})
+    for name in BFE:
+        out.append({"part": "bfe", "bfe": name, "k": 2, "bound": 1 if tier == "quick" else 2, "seed": seed})
     return out
 
 
@@ -386,6 +388,13 @@ def run_shard(shard):
         return {"violations": [{"key": k, "what": w, "case": dict(c, seed=shard.get("seed", 0))} for k, w, c in viol],
                 "counts": {"schedules": stats["executions"], "transitions": stats["executions"] * max(1, stats["max_points"])},
                 "sets": {"outcomes": [f"{tag}:{o}" for o in outcomes], "explored": [tag]},
+                "samples": sample}
+    if shard["part"] == "bfe":
+        stats, outcomes, viol, sample = explore_bfe(shard["bfe"], shard["k"], shard["bound"])
+        tag = f"bfe-{shard['bfe']}/k{shard['k']}/b{shard['bound']}"
+        return {"violations": [{"key": k, "what": w, "case": dict(c, seed=shard.get("seed", 0))} for k, w, c in viol],
+                "counts": {"schedules": stats["executions"], "transitions": stats["executions"] * max(1, stats["max_points"])},
+                "sets": {"outcomes": [f"{tag}:{hashlib.sha1(o.encode()).hexdigest()[:10]}" for o in outcomes], "explored": [tag]},
                 "samples": sample}
     if shard["part"] == "free":
         return run_free(shard)
@@ -581,6 +590,95 @@ def run_calib(shard):
             "sets": {"outcomes": [f"calib:{o}" for o in outcomes]}, "samples": []}
 
 
+# --------------------------------------------------------------------------- batch fitness evaluation (DaskBFE)
+
+def _is_fitness_task(key):
+    name = key[0] if isinstance(key, tuple) else key
+    return isinstance(name, str) and "vectorize_fitness" in name and not name.startswith("reshape")
+
+
+BFE = {"det": dict(model=("props.c07_parallel.cal_probe", {"a": 1.0, "b": 0.0}), seed=None),
+       "noisy": dict(model=("vp.probes.noisy", {"a": 1.0, "sigma": 1.0}), seed=11)}
+
+
+def bfe_setup(name, tmp):
+    import pygmo as pg
+    from pyxel.observation import ParameterValues
+    from pyxel.pipelines import Processor
+
+    from vp import calib
+
+    cfg = BFE[name]
+    tgt = os.path.join(tmp, "t.npy")
+    np.save(tgt, np.ones((2, 3)))
+    det = mk.detector("ccd", 2, 3)
+    pipe = mk.pipeline({"charge_collection": [(cfg["model"][0], "m", dict(cfg["model"][1]))]})
+    kw = {"pipeline_seed": cfg["seed"]} if cfg["seed"] is not None else {}
+    cal = calib.calibration([tgt], [ParameterValues(key="pipeline.charge_collection.m.arguments.a", values="_",
+                                                    boundaries=(0.0, 5.0))],
+                            generations=1, population_size=8, pygmo_seed=1, **kw)
+    problem, _ = calib.real_problem(cal, Processor(detector=det, pipeline=pipe))
+    return problem, pg.problem(problem)
+
+
+def bfe_execution(name, k, choices, expect=None):
+    global SCHED
+    import dask
+    from pyxel.calibration import DaskBFE
+
+    s = int(os.environ.get("VERIF_SEED", "0") or 0) % 5
+    tmp = tempfile.mkdtemp(prefix="vp_c07b_")
+    sched = schedx.Sched(choices, expect)
+    try:
+        seams.install_rng_seam()
+        schedx.install_dask_queue_get(_get_sched)
+        _install_lock_seam(sched)
+        seams.orig_rng("seed")(4242)
+        probes.HOOK = None
+        seams.set_rng_hook(None)
+        problem, prob = bfe_setup(name, tmp)
+        dvs = np.array([0.5 + s, 1.5, 2.5])
+        ref = [float(problem.fitness(np.array([d]))[0]) for d in dvs]
+        arr = DaskBFE(chunk_size=1)(prob, dvs)
+        probes.HOOK = sched.point
+        seams.set_rng_hook(sched.point)
+        SCHED = sched
+        try:
+            ex = schedx.ControlledExecutor(sched, k, controlled=_is_fitness_task)
+            with dask.config.set(scheduler="threads", pool=ex, num_workers=k):
+                got = [float(x) for x in arr.compute()]
+            if ex.n_controlled < 2:
+                raise RuntimeError(f"vacuous harness: {ex.n_controlled} controlled fitness tasks")
+        finally:
+            SCHED = None
+            probes.HOOK = None
+            seams.set_rng_hook(None)
+        return {"ref": ref, "got": got}, sched.log
+    finally:
+        _remove_lock_seam()
+        shutil.rmtree(tmp, ignore_errors=True)
+
+
+def explore_bfe(name, k, bound):
+    viol, outcomes, stats, sample = {}, set(), {"executions": 0, "max_points": 0}, []
+
+    def on_exec(ch, out, log):
+        stats["executions"] += 1
+        stats["max_points"] = max(stats["max_points"], len(log))
+        outcomes.add(json.dumps(out["got"]))
+        if not sample:
+            sample.append({"bfe": name, "pool": k, "choices": ch, "labels": [e[1][0][1] for e in log][:30]})
+        if out["got"] != out["ref"]:
+            npre = schedx.preemptions(log, ch, len(ch))
+            key = {"part": "bfe", "pipeline": name, "code": "fitness", "preemptions": (">=2" if npre >= 2 else npre)}
+            viol.setdefault(json.dumps(key, sort_keys=True),
+                            (key, f"[bfe {name}, pool {k}] batch fitness {out['got']} != sequential {out['ref']} under "
+                                  f"schedule {ch}", {"part": "bfe", "bfe": name, "k": k, "choices": ch}))
+
+    schedx.explore(lambda ch, ex: bfe_execution(name, k, ch, ex), bound, on_exec=on_exec)
+    return stats, outcomes, list(viol.values()), sample
+
+
 # --------------------------------------------------------------------------- replay / coverage
 
 def replay(case):
@@ -610,6 +708,17 @@ def replay(case):
             if fm:
                 out.append({"key": _key(hname, "files", preemptions=pre), "what": fm, "case": case})
         return out
+    if part == "bfe":
+        o1, log1 = bfe_execution(case["bfe"], case["k"], case["choices"], None)
+        o2, _ = bfe_execution(case["bfe"], case["k"], case["choices"], [e[1] for e in log1])
+        if o1 != o2:
+            raise RuntimeError("the same schedule gave two different observations")
+        if o1["got"] != o1["ref"]:
+            npre = schedx.preemptions(log1, case["choices"], len(case["choices"]))
+            return [{"key": {"part": "bfe", "pipeline": case["bfe"], "code": "fitness",
+                             "preemptions": (">=2" if npre >= 2 else npre)},
+                     "what": f"batch fitness {o1['got']} != sequential {o1['ref']}", "case": case}]
+        return []
     if part == "free":
         for _ in range(30):
             r = run_free({"h": case["h"], "seed": case.get("seed", 0), "tier": "quick"})
